@@ -1452,7 +1452,7 @@ pub fn run(pc: &PropCtx) {
         pc.inconclusive(e);
         return;
     }
-    let cases = pc.tier.pick(12_000, 200_000);
+    let cases = pc.tier.pick(20_000, 200_000);
     pc.run_tape("precedence", cases, (64, 400), gen_case, check);
     let n = cases as u64;
     pc.require_class("precedence:conflict_any", n * 3 / 10);
